@@ -7,7 +7,7 @@ import shutil
 
 import numpy as np
 
-from harness import steps
+from harness import common, pyast_metrics, steps
 from harness.common import close, cpairs_nat, differential, hexf, unhex
 from harness.props import c01
 from harness.props.c01 import cposes, mk_poses, perturb, traj_from
@@ -15,7 +15,7 @@ from harness.props.c09 import H, U, rand_rot
 
 ID = "C02"
 IMPORTS = "From Evo Require Import Num Linalg Lie Metrics.\n"
-COQ_TARGETS = ["theories/MetricsProofs.vo", "theories/RpeSelect.vo", "generated/StepsC02.vo"]
+COQ_TARGETS = ["theories/MetricsProofs.vo", "theories/RpeSelect.vo", "generated/StepsC02.vo", "theories/MetricsTie.vo", "generated/LieGen.vo", "generated/MetricsGen.vo"]
 TRUSTED = ["model Evo.Metrics (rpe) written by hand from RPE.process_data; tie = differential run in binary64",
            "pair selection (id_pairs_from_delta) enters the model as a list computed by evo's own selector on the trajectory "
            "the statement names (estimate, or reference with pairs_from_reference); the selector itself is property C10",
@@ -34,7 +34,7 @@ def regenerate(ctx):
     except (steps.StepError, OSError, SyntaxError) as e:
         defs = [("main_rpe_rpe", ["<extraction failed: %s>" % e]), ("main_rpe_run", [])]
     steps.write_generated("StepsC02", defs)
-    return []
+    return pyast_metrics.regenerate_ties(ctx, common.REPO, common.COQ)
 
 
 def model_exprs(rel, pairs, ref, est):
@@ -361,6 +361,11 @@ def shrink(case):
 
 
 def run(ctx, replay=None, proofs_ok=True):
+    if not proofs_ok:   # the case files only need the executable model
+        common.build_theories(targets=["theories/Metrics.vo"])
+    if replay is not None and not replay.get("case"):
+        return {"failures": [], "coverage": {"evaluations": 0, "distinct_nontrivial": 0, "rule": "replay of an obligation "
+                "(no input case): the theorems were re-checked by the driver", "samples": []}}
     cases = [replay["case"]] if replay is not None else gen(ctx)
     failures, stats = differential(ctx, cases, imports=IMPORTS, impl=impl, expr=expr, judge=judge,
                                    nontrivial=lambda c, v, o: bool(o.get("pairs")), per_file=40)
